@@ -634,8 +634,7 @@ def updateRefInSchema (sch : J) (key ref : String) : Outcome J :=
     | none => .err "pointer does not resolve"
     | some (node, kind) =>
       match kind with
-      | .schemaVal => (match Replace.setAt sch toks (Replace.refNode ref) with | some d' => .ok d' | none => .err "no parent")
-      | .schemaPtr | .notPtr | .schemaOrArray | .schemaOrBool =>
+      | .schemaVal | .schemaPtr | .notPtr | .schemaOrArray | .schemaOrBool =>
         (match Replace.setAt sch toks (node.set "$ref" (.str ref)) with | some d' => .ok d' | none => .err "no parent")
       | _ => .err "no schema with ref"
 
